@@ -489,12 +489,55 @@ def contains_pair(l):
     return False
 
 
+def none_like(l):
+    t = l["t"]
+    if t == "opt":
+        return l["l"] is None or none_like(l["l"])
+    if t == "vec":
+        return all(none_like(x) for x in l["ls"])
+    if t == "pair":
+        return none_like(l["o"]) and none_like(l["i"])
+    if t == "box":
+        return none_like(l["l"])
+    return False
+
+
+def psf_like(l):
+    """the marker-downcast rule: does the layer consist only of per-layer-filtered layers?"""
+    t = l["t"]
+    if t == "filt":
+        return True
+    if t == "pair":
+        return psf_like(l["o"]) and psf_like(l["i"])
+    if t == "opt":
+        return l["l"] is not None and psf_like(l["l"])
+    if t == "vec":
+        return bool(l["ls"]) and all(psf_like(x) for x in l["ls"])
+    if t == "box":
+        return psf_like(l["l"])
+    return False
+
+
+def f83_shape(l):
+    """finding F83 (C08): an and_then pair or Vec whose members are none-layers (>= 1) and otherwise only per-layer-filtered
+    layers (>= 1), anywhere in the tree"""
+    t = l["t"]
+    kids = [l["o"], l["i"]] if t == "pair" else l["ls"] if t == "vec" else [l["l"]] if t in ("box", "filt") or (t == "opt" and l["l"] is not None) else []
+    if t in ("pair", "vec"):
+        nones = [k for k in kids if none_like(k)]
+        rest = [k for k in kids if not none_like(k)]
+        if nones and rest and all(psf_like(k) for k in rest):
+            return True
+    return any(f83_shape(k) for k in kids)
+
+
 class Oracle:
     def __init__(self, case, impl):
         self.case = case
         self.impl = impl
         self.hint = impl["hint"] if impl["hint"] is not None else 5
         self.pair_over_registry = bool(case["stack"]) and contains_pair(case["stack"][0])
+        self.f83 = any(f83_shape(l) for l in case["stack"])
         self.recs, self.globs, self.filts, self.in_class = walk_stack(case["stack"])
         self.order = sorted(self.filts)           # parents have smaller tags than children (assign order)
         self.handles = []                         # handle -> span id | None
@@ -720,6 +763,12 @@ class Oracle:
                     self.stats["f71"] = self.stats.get("f71", 0) + 1
                     self.bad("miss", "op %d: layer %d (filters %s) missed callsite %d: all 64 per-layer filters rejected it and the Registry vetoed the "
                              "emission for every layer" % (i, rec["n"], rec["chain"], cs), "F71")
+                elif m["level"] > self.hint and not obs and self.f83:
+                    # F83's exact shape (a C08 finding seen from here): the macro guard dropped the emission because the hint of a
+                    # none-layer + per-layer-filtered subtree capped LevelFilter::current()
+                    self.stats["f83"] = self.stats.get("f83", 0) + 1
+                    self.bad("miss", "op %d: layer %d (filters %s) missed callsite %d (level %d): the stack's max-level hint is %d (none-layer next to a "
+                             "per-layer-filtered layer)" % (i, rec["n"], rec["chain"], cs, m["level"], self.hint), "F83")
                 elif m["level"] > self.hint and not obs and self.pair_over_registry:
                     # F81's exact shape: the macro guard dropped the emission (no call reached the collector) because the stack's
                     # max-level hint is below its level, and the layer added directly to the Registry contains an `and_then` pair
